@@ -46,6 +46,34 @@ func resizeAlphabet(quick bool) []O {
 	return a
 }
 
+// overflowResizeAlphabet: size changes on files that are full, that use the
+// overflow area (meta pages behind the maximum size) or whose free pages are
+// scattered; sizes relative to the smallest legal file (64 KiB).
+func overflowResizeAlphabet(cfg pagedrv.Cfg) []O {
+	min := 65536 / cfg.PageSize
+	return []O{
+		{K: pagedrv.OBegin},
+		{K: pagedrv.OBegin, B: 1},
+		{K: pagedrv.OBegin, A: 1, B: 1},
+		{K: pagedrv.OWrite, A: 0, B: pagedrv.WFull},
+		{K: pagedrv.OWrite, A: -1, B: pagedrv.WLoad},
+		{K: pagedrv.OWriteAll, B: pagedrv.WFull},
+		{K: pagedrv.OAlloc, A: 1},
+		{K: pagedrv.OFree, A: 0},
+		{K: pagedrv.OFree, A: -1},
+		{K: pagedrv.OFreeEveryOther, A: 0},
+		{K: pagedrv.OFreeAll},
+		{K: pagedrv.OCommit},
+		{K: pagedrv.ORollback},
+		{K: pagedrv.OReopen},
+		{K: pagedrv.OReopenWith, A: min},
+		{K: pagedrv.OReopenWith, A: min + min/2},
+		{K: pagedrv.OReopenWith, A: min + min/2, B: 1},
+		{K: pagedrv.OReopenWith, A: 2 * min},
+		{K: pagedrv.OReopenWith, A: 0},
+	}
+}
+
 // hookC14 runs after every transition (in the child): the promises about the
 // size limit itself.
 func hookC14(e *pagedrv.Env, last O) {
@@ -73,35 +101,65 @@ func hookC14(e *pagedrv.Env, last O) {
 }
 
 func runC14(ctx *core.Ctx, pool *par.Pool) {
-	cfgs := []pagedrv.Cfg{pagedrv.CfgA, pagedrv.CfgC}
-	depth := 7
+	quick := ctx.Quick()
+	depth := 6
 	ctx.SetBudget(110 * time.Second)
-	if !ctx.Quick() {
-		cfgs = []pagedrv.Cfg{pagedrv.CfgA, pagedrv.CfgB, pagedrv.CfgC}
+	if !quick {
 		depth = 8
 		ctx.SetBudget(15 * time.Minute)
 	}
 	var total xstate.Stats
-	resizes, probes := 0, 0
+	resizes, probes, sweeps := 0, 0, 0
 	kinds := map[string]int{}
 	// seed: 100 written pages on a file whose limit was raised to 128 (bounded start) resp. on the unbounded file:
 	// every smaller limit tried afterwards leaves live pages beyond it
 	seedBig := seed{"100-pages", []O{{K: pagedrv.OReopenWith, A: 128}, {K: pagedrv.OBegin}, {K: pagedrv.OAlloc, A: 100}, {K: pagedrv.OWriteAll}, {K: pagedrv.OSetRoot, A: 0}, {K: pagedrv.OCommit}}}
 	seedBigU := seed{"100-pages", []O{{K: pagedrv.OBegin}, {K: pagedrv.OAlloc, A: 100}, {K: pagedrv.OWriteAll}, {K: pagedrv.OSetRoot, A: 0}, {K: pagedrv.OCommit}}}
-	var runs []bfsRun
-	for _, c := range cfgs {
-		runs = append(runs, bfsRun{c, seedEmpty, depth})
-		if c.MaxPages == 0 {
-			runs = append(runs, bfsRun{c, seedBigU, depth - 2})
-		} else {
-			runs = append(runs, bfsRun{c, seedBig, depth - 2})
+	// a file grown to twice its size and filled to the last page
+	seedFull2 := seed{"grown-full", []O{{K: pagedrv.OReopenWith, A: 128}, {K: pagedrv.OBegin}, {K: pagedrv.OAllocAvail, A: 0}, {K: pagedrv.OCommit}}}
+	// a nearly full file whose free pages are all single pages
+	seedScattered := seed{"scattered-free", []O{{K: pagedrv.OBegin}, {K: pagedrv.OAllocAvail, A: -2}, {K: pagedrv.OWriteAll}, {K: pagedrv.OCommit}, {K: pagedrv.OBegin}, {K: pagedrv.OFreeEveryOther}, {K: pagedrv.OCommit}}}
+	type c14run struct {
+		bfsRun
+		alphabet []O
+		sweep    bool // allocation sweep in every quiescent state reached through a size change
+	}
+	base := func(c pagedrv.Cfg, sd seed, d int) c14run { return c14run{bfsRun{c, sd, d}, resizeAlphabet(quick), false} }
+	ovf := func(c pagedrv.Cfg, sd seed, d int) c14run { return c14run{bfsRun{c, sd, d}, overflowResizeAlphabet(c), true} }
+	var runs []c14run
+	if quick {
+		runs = []c14run{
+			base(pagedrv.CfgA, seedEmpty, depth), base(pagedrv.CfgA, seedBig, depth-2),
+			base(pagedrv.CfgC, seedEmpty, depth-1), base(pagedrv.CfgC, seedBigU, depth-2),
+			ovf(pagedrv.CfgA, seedFull, 4), ovf(pagedrv.CfgA, seedFull2, 4), ovf(pagedrv.CfgD, seedScattered, 4), ovf(pagedrv.CfgA, seedOverflow, 3),
+		}
+	} else {
+		for _, c := range []pagedrv.Cfg{pagedrv.CfgA, pagedrv.CfgB, pagedrv.CfgC} {
+			runs = append(runs, base(c, seedEmpty, depth))
+			if c.MaxPages == 0 {
+				runs = append(runs, base(c, seedBigU, depth-2))
+			} else {
+				runs = append(runs, base(c, seedBig, depth-2))
+			}
+		}
+		for _, c := range []pagedrv.Cfg{pagedrv.CfgA, pagedrv.CfgB, pagedrv.CfgD} {
+			for _, sd := range []seed{seedFull, seedFull2, seedScattered, seedOverflow, seedFrag} {
+				if sd.Name == "grown-full" && c.Name == "D" {
+					continue // 128 pages of 4 KiB: the sizes of the alphabet are below it
+				}
+				runs = append(runs, ovf(c, sd, 6))
+			}
 		}
 	}
 	for _, run := range runs {
 		cfg := run.Cfg
 		ctx.Share(ctx.Budget() / time.Duration(len(runs)))
-		var grown []*xstate.Node
-		st := xstate.BFS(ctx, pool, xstate.Spec{Cfg: cfg, Seed: run.Seed.Ops, Alphabet: resizeAlphabet(ctx.Quick()), MaxDepth: run.Depth, Flags: []string{"c14"},
+		var grown, resized []*xstate.Node
+		flags := []string{"c14"}
+		if run.sweep {
+			flags = append(flags, "diskfmt")
+		}
+		st := xstate.BFS(ctx, pool, xstate.Spec{Cfg: cfg, Seed: run.Seed.Ops, Alphabet: run.alphabet, MaxDepth: run.Depth, Flags: flags,
 			OnTransition: func(from *xstate.Node, s *xstate.Succ, isNew bool, to *xstate.Node) {
 				sampleHook(ctx, cfg)(from, s, isNew, to)
 				if s.Op.K == pagedrv.OReopenWith && !s.Dead {
@@ -115,11 +173,13 @@ func runC14(ctx *core.Ctx, pool *par.Pool) {
 					if !n.Quiet {
 						continue
 					}
-					resized, shrunk := false, false
+					wasResized, shrunk := false, false
 					cur := cfg.MaxPages
-					for _, op := range n.Path() {
+					for i, op := range n.Path() {
 						if op.K == pagedrv.OReopenWith {
-							resized = true
+							if i >= len(run.Seed.Ops) {
+								wasResized = true
+							}
 							if cur != 0 && (op.A == 0 || op.A > cur) {
 								// grow
 							} else {
@@ -128,8 +188,11 @@ func runC14(ctx *core.Ctx, pool *par.Pool) {
 							cur = op.A
 						}
 					}
-					if resized && !shrunk && cur != 0 {
+					if wasResized && !shrunk && cur != 0 && !run.sweep {
 						grown = append(grown, n)
+					}
+					if wasResized && run.sweep {
+						resized = append(resized, n)
 					}
 				}
 			}})
@@ -137,10 +200,12 @@ func runC14(ctx *core.Ctx, pool *par.Pool) {
 		total.Transitions += st.Transitions
 		ctx.Set("depth_"+run.name(), st.Depth)
 		xstate.RunProbes(ctx, pool, cfg, grown, "capacity", nil, []string{"c14"}, func(n *xstate.Node, r *xstate.ProbeResult) { probes++ })
+		xstate.RunProbes(ctx, pool, cfg, resized, "sweep", nil, flags, func(n *xstate.Node, r *xstate.ProbeResult) { sweeps++ })
 	}
 	ctx.Unshare()
 	ctx.Set("resize_transitions", resizes)
 	ctx.Set("resize_kinds", kinds)
 	ctx.Set("capacity_probes_after_grow", probes)
-	finishBFS(ctx, total, probes)
+	ctx.Set("allocation_sweeps_after_resize", sweeps)
+	finishBFS(ctx, total, probes+sweeps)
 }
